@@ -79,6 +79,10 @@ CLAIMED.update({
             'run): message streams with symbolic contents cut at a SYMBOLIC offset and delivered in every segmentation, then a '
             'disconnect: exactly the complete messages, quiet end of iteration, port closed, descriptor released; close seen as EOF; '
             'server fairness/termination; address format/parse with a symbolic port number.', '4/C18'),
+    'C10': ('Real threads run the real ports.py under a deterministic line-level scheduler whose every scheduling decision is a '
+            'symbolic integer: all schedules within the preemption bound are explored (each a solver-certified fork) with symbolic '
+            'message contents, on a byte-wise lock-protected device port, EchoPort, the IOPort wrapper and MultiPort: no call raises, '
+            'every call returns, each message exactly once and intact, per-sender order, received messages are copies.', '4/C10'),
 })
 
 PENDING = {}     # id -> reason (not claimed)
